@@ -495,24 +495,25 @@ http_parse_req_line(const uint8_t *http_hdr, size_t hdr_size,
 		req_data->host_size = req_data->uri_size;
 	} else {
 		/* scheme, host, port */
-		ptm = mem_find_cstr(req_data->uri, req_data->uri_size, "://");
+		ptm = NULL;
+		if ('/' != req_data->uri[0]) {
+			ptm = mem_find_cstr(req_data->uri, req_data->uri_size, "://");
+		}
 		if (NULL != ptm) { /* scheme */
 			req_data->scheme = req_data->uri;
 			req_data->scheme_size = (size_t)(ptm - req_data->scheme);
 			/* host & port */
 			req_data->host = (ptm + 3);
-			ptm = mem_chr_ptr(req_data->host,
-			    req_data->uri, req_data->uri_size, '/');
-			if (NULL == ptm) {
-				ptm = pspace; // = (req_data->uri + req_data->uri_size);
-			}
+			for (ptm = req_data->host; ptm < pspace &&
+			    '/' != (*ptm) && '?' != (*ptm); ptm ++)
+				;
 			req_data->host_size = (size_t)(ptm - req_data->host);
 		} else {
 			ptm = req_data->uri;
 		}
 		/* abs_path */
 		/* Skip slash~s from head. */
-		while (ptm < (pspace - 1) && '/' == ptm[1]) {
+		while (ptm < (pspace - 1) && '/' == ptm[0] && '/' == ptm[1]) {
 			ptm ++;
 		}
 		req_data->abs_path = ptm;
@@ -556,7 +557,7 @@ http_parse_resp_line(const uint8_t *http_hdr, size_t hdr_size,
     http_resp_line_data_p resp_data) {
 	const uint8_t *ptm;
 
-	if (NULL == http_hdr || 14 > hdr_size || NULL == resp_data)
+	if (NULL == http_hdr || 13 > hdr_size || NULL == resp_data)
 		return (EINVAL);
 	if (0 != memcmp("HTTP/", http_hdr, 5) ||
 	    ('0' > http_hdr[ 5] || '9' < http_hdr[ 5]) ||
@@ -794,6 +795,11 @@ http_hdr_val_remove(uint8_t *http_hdr, uint8_t *hdr_lcase, size_t hdr_size,
 			ret ++;
 			val_end = mem_find_ptr_cstr((val + val_name_size + 1),
 			    hdr_lcase, hdr_size, CRLF);
+			while (NULL != val_end && (val_end + 2) < hdr_lcase_end &&
+			    (' ' == val_end[2] || '\t' == val_end[2])) {
+				val_end = mem_find_ptr_cstr((val_end + 2),
+				    hdr_lcase, hdr_size, CRLF);
+			}
 			if (NULL != val_end) {
 				val_end += 2;
 			} else {
@@ -868,6 +874,15 @@ http_query_val_get_ex(const uint8_t *query, size_t query_size,
 		val_end = mem_chr_ptr((val + 1), query, query_size, '=');
 		if (NULL == val_end)
 			return (ESPIPE);
+		{
+			const uint8_t *amp = mem_chr_ptr(val, query, query_size, '&');
+			if (NULL != amp && amp < val_end) {
+				val = amp;
+				while (query_max > val && '&' == (*val))
+					val ++;
+				continue;
+			}
+		}
 		/* Compare val_name and data beetween ['&'] and '=' */
 		if (0 == mem_cmpin(val, (size_t)(val_end - val),
 		    val_name, val_name_size)) {
